@@ -108,6 +108,8 @@ StartsName(c) == c = 92 \/ c = 46 \/ c = 47 \/ c = 94 \/ IsLeadNameChar(c)
 HexVal(c) == IF c >= 48 /\ c <= 57 THEN c - 48 ELSE IF c >= 65 /\ c <= 70 THEN c - 55
              ELSE IF c >= 97 /\ c <= 102 THEN c - 87 ELSE -1
 IsUpper(c) == c >= 65 /\ c <= 90
+\* number of characters of a UTF-8 byte string (continuation bytes 10xxxxxx do not start a character)
+CharLen(s) == Cardinality({i \in 1..Len(s) : s[i] \div 64 # 2})
 EisaValid(s) == Len(s) = 7 /\ (\A i \in 1..3 : IsUpper(s[i])) /\ (\A j \in 4..7 : HexVal(s[j]) >= 0)
 EisaCompress(s) ==
   LET c1 == s[1] - 64 c2 == s[2] - 64 c3 == s[3] - 64 IN
